@@ -56,6 +56,11 @@ CHECKS = {
          "DESIGN.md §4 C13",
          "Same space as C12; format(format(p)) must equal format(p) (a third application distinguishes settle / two-cycle / drift).",
          "Same as C12."),
+ "C14": ("model_checking",
+         "explicit-state breadth-first search over LSP event histories on the real server (fresh-server differential in every state, canonical state key), conformance replay against the real process",
+         "DESIGN.md §4 C14",
+         "States are event histories (didOpen/didChange/didClose over 3 files and a typing ladder of texts, rename, codeLens, formatting) replayed on a fresh real LspServer running its real main loop; in every state a battery of 10 request types at token starts, line ends, beyond-end and inside-multi-byte positions must be answered, be well-formed and equal a fresh server's answers for the final buffers. Thorough runs to closure of the canonical state set; quick to depth 3.",
+         "Canonical key = (buffers, digest of answers): sound because every didOpen/didChange/didClose rebuilds the server state from the buffers; a state that differs from the fresh server is reported, so merging loses nothing. Text ladder is finite. stdio framing covered by the conformance replays only."),
 }
 
 NOT_YET = {
